@@ -26,6 +26,35 @@ MOD = "tensora.ir._peephole"
 # abstract evaluation of a peephole function body
 # ------------------------------------------------------------------------------------------------
 BUILDERS: dict = {}  # method name of ir.ast.Expression -> IR class it builds (filled by run())
+HELPERS: dict = {}  # private single-expression helpers of the peephole module: name -> (params, expr)
+CONSTS: dict = {}  # module-level tuples of IR literals: name -> [expr, ...]
+
+
+def collect_helpers(ix):
+    """Module-level functions of the peephole module that are a single `return <expr>` (not dispatch
+    implementations) are inlined where called; module-level tuple constants are expanded."""
+    HELPERS.clear()
+    CONSTS.clear()
+    tree = ix.module(MOD)
+    for st in tree.body:
+        if isinstance(st, ast.FunctionDef) and not st.decorator_list:
+            body = [b for b in st.body if not (isinstance(b, ast.Expr) and isinstance(b.value, ast.Constant))]
+            if len(body) == 1 and isinstance(body[0], ast.Return) and body[0].value is not None and not st.args.kwonlyargs and not st.args.vararg:
+                HELPERS[st.name] = ([a.arg for a in st.args.args], body[0].value)
+        if isinstance(st, (ast.Assign, ast.AnnAssign)) and st.value is not None and isinstance(st.value, (ast.Tuple, ast.List)):
+            tgt = st.targets[0] if isinstance(st, ast.Assign) else st.target
+            if isinstance(tgt, ast.Name):
+                CONSTS[tgt.id] = list(st.value.elts)
+
+
+def _flat(op, parts):
+    out = []
+    for p_ in parts:
+        if isinstance(p_, tuple) and p_ and p_[0] == op:
+            out.extend(p_[1:])
+        else:
+            out.append(p_)
+    return (op, *out)
 
 
 def builder_methods(ix):
@@ -65,6 +94,17 @@ def builder_methods(ix):
 
 
 def term(e, env, ircls):
+    if isinstance(e, ast.Call) and isinstance(e.func, ast.Call) and isinstance(e.func.func, ast.Name) and e.func.func.id == "type" and len(e.func.args) == 1 and not e.keywords:
+        if term(e.func.args[0], env, ircls) == ("SELF",):
+            return ("NEWSELF", tuple(term(a, env, ircls) for a in e.args))
+    if isinstance(e, ast.Call) and isinstance(e.func, ast.Name) and e.func.id in HELPERS and not e.keywords and len(e.args) == len(HELPERS[e.func.id][0]):
+        params, body = HELPERS[e.func.id]
+        env2 = dict(env)
+        for p_, a in zip(params, e.args):
+            env2[p_] = term(a, env, ircls)
+        t = term(body, env2, ircls)
+        if t[0] != "?":
+            return t
     if isinstance(e, ast.Call) and isinstance(e.func, ast.Attribute) and e.func.attr in BUILDERS and len(e.args) == 1 and not e.keywords:
         recv, arg = term(e.func.value, env, ircls), term(e.args[0], env, ircls)
         if recv[0] not in ("?", "CONST", "LIST") and arg[0] not in ("?", "CONST", "LIST"):
@@ -110,7 +150,20 @@ def term(e, env, ircls):
 
 def cond(e, env, ircls):
     if isinstance(e, ast.BoolOp):
-        return (type(e.op).__name__,) + tuple(cond(v, env, ircls) for v in e.values)
+        return _flat(type(e.op).__name__, [cond(v, env, ircls) for v in e.values])
+    if isinstance(e, ast.Call) and isinstance(e.func, ast.Name) and e.func.id in HELPERS and not e.keywords and len(e.args) == len(HELPERS[e.func.id][0]):
+        params, body = HELPERS[e.func.id]
+        env2 = dict(env)
+        for p_, a in zip(params, e.args):
+            env2[p_] = term(a, env, ircls)
+        return cond(body, env2, ircls)
+    if isinstance(e, ast.Compare) and len(e.ops) == 1 and isinstance(e.ops[0], (ast.In, ast.NotIn)):
+        rhs = e.comparators[0]
+        elts = CONSTS.get(rhs.id) if isinstance(rhs, ast.Name) else list(rhs.elts) if isinstance(rhs, (ast.Tuple, ast.List)) else None
+        if elts:
+            lhs = term(e.left, env, ircls)
+            c = _flat("Or", [("EQ", lhs, term(x, env, ircls)) for x in elts]) if len(elts) > 1 else ("EQ", lhs, term(elts[0], env, ircls))
+            return c if isinstance(e.ops[0], ast.In) else ("Not", c)
     if isinstance(e, ast.Compare) and len(e.ops) == 1 and isinstance(e.ops[0], ast.Eq):
         return ("EQ", term(e.left, env, ircls), term(e.comparators[0], env, ircls))
     if isinstance(e, ast.Call) and isinstance(e.func, ast.Name) and e.func.id == "isinstance" and len(e.args) == 2:
@@ -293,6 +346,8 @@ def lit_value(t):
 
 def validate(cls_name, fields, pc, result, multi_registered):
     """Return None if the rule instance is valid, else a reason."""
+    if result[0] == "NEWSELF":
+        result = ("NEW", cls_name, result[1])  # type(self)(...): the class at hand, whatever it is
     kind = result[0]
     # ---- homomorphic rebuilds ----
     if kind == "SELF":
@@ -474,6 +529,7 @@ def run(ctx):
     ircls = {n for n in dir(IR) if isinstance(getattr(IR, n), type)}
     BUILDERS.clear()
     BUILDERS.update(builder_methods(ix))
+    collect_helpers(ix)
     dispatchers = {
         "peephole_expression": (P.peephole_expression, IR.Expression),
         "peephole_statement": (P.peephole_statement, IR.Statement),
